@@ -74,6 +74,20 @@ theorem checkFormatted_iff (fmt : String → Option String) (source t : String) 
     checkFormatted fmt source = some true ↔ (perFile fmt true false source).needsFormatting = false := by
   simp [checkFormatted, perFile, h, bne_iff_ne]
 
+/-- Over a whole directory, `--check` / `--diff` leave **every** file untouched, wherever it comes in
+the list and whatever happened to the files before it. -/
+theorem runFiles_readonly (fmt : String → Option String) (c d : Bool) (files : List String)
+    (h : c = true ∨ d = true) :
+    (runFiles fmt c d files).1.map (·.contents) = files := by
+  unfold runFiles
+  simp only [List.map_map]
+  induction files with
+  | nil => rfl
+  | cons f fs ih =>
+    simp only [List.map_cons, Function.comp]
+    rw [(check_diff_readonly fmt c d f h).1]
+    exact congrArg _ ih
+
 example : (perFile (fun _ => some "x\n") true true "y").contents = "y" := by decide
 
 end Incan.FmtCli
